@@ -403,6 +403,7 @@ STMTS = [
     'return PROP.boom(*args, **kwargs)',
     'return PROP.boom.deeper(*args, **kwargs)',
     'return EQ(*args, **kwargs)',
+    'return F(*BADITER, **kwargs)',
     'g = (F(*args, **kwargs) for _ in range(1))\nargs = ()\nreturn list(g)',
     'async def co2(*args, **kwargs):\n    return F(*args, **kwargs)\nreturn co2()',
     # physical lines indented less than the def they belong to (\x01 = stays in column 0): inside a class or a function the
@@ -443,6 +444,7 @@ PRELUDE = ('import functools\n'
            'def PONG(*a, **k):\n    return PING(*a, **k)\n'
            'def NOARGS():\n    return 0\n'
            'NONE = None\nFIVE = 5\n'
+           'class _BadIter:\n    def __iter__(self):\n        raise RuntimeError("only iterable later")\nBADITER = _BadIter()\n'
            'class _Prop:\n    @property\n    def boom(self):\n        raise RuntimeError("computed at run time only")\nPROP = _Prop()\n'
            'class _Eq:\n    def __eq__(self, other):\n        raise RuntimeError("compared")\n    __hash__ = object.__hash__\n'
            '    def __call__(self, x, y=2):\n        return 0\nEQ = _Eq()\n')
